@@ -102,7 +102,7 @@ CHECKS = {
        "returns, with a value or an error, has moved the session's counter past the counter of the frame it built or reports SessionExpired with the counter space exhausted, keys unchanged; "
        "C06_async_counters_strictly_increase -- any two uplinks of one session are built from strictly increasing counters whatever happened in between. Non-blocking front-end "
        "(Model/NbDev.v: the state machine of nb_device/state.rs as a pure function of state, MAC, event and the radio's answer): C06_nb_counters_strictly_increase -- for EVERY sequence of "
-       "events (sends, radio events answered with Txing / TxDone / Idle / Rxing / an error / any packet, timeouts) and a fault at any radio call, two frames of a session are built from "
+       "events (sends, radio events answered with Txing / TxDone / Idle / Rxing / an error / any packet, timeouts) and one failing radio call or an outage of any number of calls in a row, two frames of a session are built from "
        "strictly increasing counters until expiry is reported. Both front-end models are tied to the code by running model and implementation on the same histories (responses and the trace "
        "of radio / timer calls compared); every frame handed to the radio by either front-end is also decoded with an independent codec and must carry strictly increasing 32-bit counters.",
   note=COMMON_NOTE + "The front-end models cover the default feature set (class-c; no multicast / certification); the async executor is a 20-line no-waker poller and the scripted timer completes at once. "
